@@ -783,6 +783,11 @@ func (ts *TermStore) StrLen(a *Term) *Term {
 	if a.Op == OIte && iteLeafCount(a, liftLimit) <= liftLimit {
 		return ts.lift1(a, func(x *Term) *Term { return ts.StrLen(x) })
 	}
+	if a.Op == OIte {
+		if r, ok := ts.liftArgs([]*Term{a}, func(c []*Term) *Term { return ts.StrLen(c[0]) }); ok {
+			return r
+		}
+	}
 	if a.Op == OStrConcat {
 		sum := ts.Int(0)
 		for _, x := range a.Args {
@@ -811,7 +816,6 @@ func constPrefix(t *Term) (string, bool) {
 // liftArgs applies f to every combination of constant leaves when all
 // arguments are constants or small ite-trees over constants (finite-domain strings).
 func (ts *TermStore) liftArgs(args []*Term, f func(cs []*Term) *Term) (*Term, bool) {
-	prod := 1
 	anyIte := false
 	for _, a := range args {
 		if a.IsConst() {
@@ -820,14 +824,12 @@ func (ts *TermStore) liftArgs(args []*Term, f func(cs []*Term) *Term) (*Term, bo
 		if a.Op != OIte {
 			return nil, false
 		}
-		n := iteLeafCount(a, 64)
-		if n > 64 {
+		if iteLeafCount(a, 256) > 256 {
 			return nil, false
 		}
 		anyIte = true
-		prod *= n
 	}
-	if !anyIte || prod > 4096 {
+	if !anyIte {
 		return nil, false
 	}
 	// enumerate (guard, leaf-combination) pairs, group equal results: the result is an
@@ -846,8 +848,27 @@ func (ts *TermStore) liftArgs(args []*Term, f func(cs []*Term) *Term) (*Term, bo
 		*out = append(*out, leaf{g, t})
 	}
 	per := make([][]leaf, len(args))
+	prod := 1
 	for i, a := range args {
-		leaves(a, ts.T, &per[i])
+		var raw []leaf
+		leaves(a, ts.T, &raw)
+		// merge equal leaves: the limit is on DISTINCT values per argument
+		idx := map[*Term]int{}
+		for _, l := range raw {
+			if !l.v.IsConst() {
+				return nil, false
+			}
+			if j, ok := idx[l.v]; ok {
+				per[i][j].g = ts.Or(per[i][j].g, l.g)
+			} else {
+				idx[l.v] = len(per[i])
+				per[i] = append(per[i], l)
+			}
+		}
+		prod *= len(per[i])
+		if prod > 128 {
+			return nil, false
+		}
 	}
 	var order []*Term
 	guards := map[*Term][]*Term{}
@@ -1026,6 +1047,9 @@ func (ts *TermStore) StrPred(op Op, a, b *Term) *Term {
 		default:
 			return ts.T
 		}
+	}
+	if r, ok := ts.liftArgs([]*Term{a, b}, func(c []*Term) *Term { return ts.StrPred(op, c[0], c[1]) }); ok {
+		return r
 	}
 	return ts.mk(op, BoolSort, a, b)
 }
